@@ -625,6 +625,228 @@ fn random_datagram() -> impl Strategy<Value = Vec<u8>> {
     ]
 }
 
+
+// ---------------------------------------------------------------------------------
+// Eco (HTTP through ureq): hostile responses served by a real loopback HTTP server
+
+#[derive(Debug, Clone)]
+enum HttpMut {
+    Truncate(prop::sample::Index),
+    Overwrite(prop::sample::Index, Vec<u8>),
+    Insert(prop::sample::Index, Vec<u8>),
+    /// replace the n-th JSON scalar of the body by a token
+    Token(prop::sample::Index, &'static str),
+    /// replace the value of a header / add one
+    Header(&'static str, String),
+    Status(String),
+    Chunked(Vec<(String, Vec<u8>)>),
+    DropBody,
+}
+
+const JSON_TOKENS: [&str; 22] = [
+    "null", "true", "[]", "{}", "\"\"", "-1", "0", "1e999", "-1e999", "1e-999", "18446744073709551616", "-9223372036854775809", "4294967296", "2147483648", "0.5", "NaN",
+    "\"\\ud800\"", "\"\\u0000\"", "[[[[[[[[[[[[[[[[[[[[[[[[[[[[[[[[[[[[[[[[[[[[[[[[[[[[[[[[[[[[[[[[[[[[[[[[[[[[[[[[[[[[[[[[[[[[[[[[[[[[[[[[[[[[[[[[[[[[[[[[[[[[[[[[[[[[[[[[[[[[",
+    "{\"a\":{\"a\":{\"a\":{\"a\":{\"a\":{\"a\":{\"a\":{\"a\":1}}}}}}}}", "123456789012345678901234567890.123456789012345678901234567890e+300", "\"\u{FFFD}\"",
+];
+
+fn http_mutation() -> impl Strategy<Value = HttpMut> {
+    let bytes = prop_oneof![prop::collection::vec(any::<u8>(), 1 .. 6), Just(b"\r\n".to_vec()), Just(b"\r\n\r\n".to_vec()), Just(vec![0u8]), Just(vec![0xFF, 0xFE])];
+    let clen = prop_oneof![
+        Just("0".to_string()), Just("1".to_string()), Just("-1".to_string()), Just("18446744073709551615".to_string()), Just("18446744073709551616".to_string()),
+        Just("9223372036854775807".to_string()), Just("abc".to_string()), Just("".to_string()), Just("4096, 12".to_string()), (0u32 .. 100_000).prop_map(|n| n.to_string())
+    ];
+    let status = prop_oneof![
+        Just("HTTP/1.1 200 OK".to_string()), Just("HTTP/1.0 200 OK".to_string()), Just("HTTP/1.1 204 No Content".to_string()), Just("HTTP/1.1 100 Continue".to_string()),
+        Just("HTTP/1.1 301 Moved".to_string()), Just("HTTP/1.1 404 Not Found".to_string()), Just("HTTP/1.1 500 Oops".to_string()), Just("HTTP/1.1 999".to_string()),
+        Just("HTTP/1.1 0 x".to_string()), Just("HTTP/9.9 200 OK".to_string()), Just("HTTP/1.1 200".to_string()), Just("HTTP/1.1".to_string()), Just("200 OK".to_string()),
+        Just("ICY 200 OK".to_string()), Just("HTTP/1.1 2000000000000000000000 OK".to_string()), Just("HTTP/1.1 -200 OK".to_string()), "[ -~]{0,20}"
+    ];
+    let chunk = (prop_oneof![Just(None), Just(Some("0".to_string())), Just(Some("FFFFFFFFFFFFFFFF".to_string())), Just(Some("-1".to_string())), Just(Some("zz".to_string())), Just(Some("10000000000000000".to_string())), Just(Some("5;ext=1".to_string()))], prop::collection::vec(any::<u8>(), 0 .. 40))
+        .prop_map(|(size, data)| (size.unwrap_or_else(|| format!("{:x}", data.len())), data));
+    prop_oneof![
+        3 => any::<prop::sample::Index>().prop_map(HttpMut::Truncate),
+        3 => (any::<prop::sample::Index>(), bytes.clone()).prop_map(|(i, b)| HttpMut::Overwrite(i, b)),
+        2 => (any::<prop::sample::Index>(), bytes).prop_map(|(i, b)| HttpMut::Insert(i, b)),
+        6 => (any::<prop::sample::Index>(), prop::sample::select(JSON_TOKENS.to_vec())).prop_map(|(i, t)| HttpMut::Token(i, t)),
+        3 => clen.prop_map(|v| HttpMut::Header("Content-Length", v)),
+        1 => prop_oneof![Just("chunked".to_string()), Just("gzip".to_string()), Just("chunked, chunked".to_string()), Just("identity".to_string())].prop_map(|v| HttpMut::Header("Transfer-Encoding", v)),
+        1 => prop_oneof![Just("gzip".to_string()), Just("br".to_string()), Just("deflate".to_string())].prop_map(|v| HttpMut::Header("Content-Encoding", v)),
+        1 => prop_oneof![Just("/".to_string()), Just("http://127.0.0.1:1/".to_string()), Just("".to_string()), Just("//".to_string()), Just("http://[::1".to_string()), "[ -~]{0,12}"].prop_map(|v| HttpMut::Header("Location", v)),
+        1 => prop_oneof![Just("text/plain".to_string()), Just("application/json; charset=utf-16".to_string()), Just("application/json; charset=\u{1}".to_string()), Just("".to_string())].prop_map(|v| HttpMut::Header("Content-Type", v)),
+        3 => status.prop_map(HttpMut::Status),
+        2 => prop::collection::vec(chunk, 0 .. 4).prop_map(HttpMut::Chunked),
+        1 => Just(HttpMut::DropBody),
+    ]
+}
+
+/// Positions (start, end) of the scalar tokens of a JSON text (numbers, strings, literals), found by a simple scan.
+fn json_scalars(body: &[u8]) -> Vec<(usize, usize)> {
+    let mut out = Vec::new();
+    let mut i = 0;
+    let mut expect_value = false;
+    while i < body.len() {
+        match body[i] {
+            b'"' => {
+                let start = i;
+                i += 1;
+                while i < body.len() && body[i] != b'"' {
+                    if body[i] == b'\\' {
+                        i += 1;
+                    }
+                    i += 1;
+                }
+                i = (i + 1).min(body.len());
+                if expect_value {
+                    out.push((start, i));
+                }
+                expect_value = false;
+            }
+            b':' | b'[' | b',' => {
+                expect_value = body[i] != b',' || expect_value_after_comma(body, i);
+                i += 1;
+            }
+            b'-' | b'0' ..= b'9' | b't' | b'f' | b'n' => {
+                let start = i;
+                while i < body.len() && !matches!(body[i], b',' | b'}' | b']' | b' ' | b'\n') {
+                    i += 1;
+                }
+                out.push((start, i));
+                expect_value = false;
+            }
+            _ => i += 1,
+        }
+    }
+    out
+}
+
+/// After a comma a value follows only inside an array (inside an object a key follows).
+fn expect_value_after_comma(body: &[u8], at: usize) -> bool {
+    let mut depth = 0i32;
+    for j in (0 .. at).rev() {
+        match body[j] {
+            b']' | b'}' => depth += 1,
+            b'[' => {
+                if depth == 0 {
+                    return true;
+                }
+                depth -= 1;
+            }
+            b'{' => {
+                if depth == 0 {
+                    return false;
+                }
+                depth -= 1;
+            }
+            _ => {}
+        }
+    }
+    false
+}
+
+fn render_http(status: &str, headers: &[(String, String)], body: &[u8]) -> Vec<u8> {
+    let mut v = format!("{status}\r\n").into_bytes();
+    for (k, val) in headers {
+        v.extend_from_slice(format!("{k}: {val}\r\n").as_bytes());
+    }
+    v.extend_from_slice(b"\r\n");
+    v.extend_from_slice(body);
+    v
+}
+
+pub fn eco_hcase() -> BoxedStrategy<HCase> {
+    let entry = prop_oneof![Just(Entry::Generic { game: "eco".into(), extra: None }), Just(Entry::Module { game: "eco".into() })];
+    let mutated = (entry.clone(), crate::models::eco::eco_state(), prop::collection::vec(http_mutation(), 1 .. 4), any::<bool>(), 0u8 .. 3).prop_map(|(entry, st, muts, refuse, retries)| {
+        let mut status = "HTTP/1.1 200 OK".to_string();
+        let mut body = st.body().into_bytes();
+        let mut headers: Vec<(String, String)> = vec![("Content-Type".into(), "application/json; charset=utf-8".into()), ("Connection".into(), "close".into())];
+        let mut explicit_len = false;
+        let mut raw_edits: Vec<HttpMut> = Vec::new();
+        for m in muts {
+            match m {
+                HttpMut::Token(i, t) => {
+                    let sc = json_scalars(&body);
+                    if !sc.is_empty() {
+                        let (a, b) = sc[i.index(sc.len())];
+                        body.splice(a .. b, t.bytes());
+                    }
+                }
+                HttpMut::Header(k, v) => {
+                    if k == "Content-Length" {
+                        explicit_len = true;
+                    }
+                    headers.retain(|(hk, _)| hk != k);
+                    headers.push((k.to_string(), v));
+                }
+                HttpMut::Status(sline) => status = sline,
+                HttpMut::Chunked(chunks) => {
+                    explicit_len = true;
+                    headers.retain(|(hk, _)| hk != "Transfer-Encoding");
+                    headers.push(("Transfer-Encoding".into(), "chunked".into()));
+                    let mut b = Vec::new();
+                    // the real body as the first chunk, then the generated ones
+                    b.extend_from_slice(format!("{:x}\r\n", body.len()).as_bytes());
+                    b.extend_from_slice(&body);
+                    b.extend_from_slice(b"\r\n");
+                    for (size, data) in chunks {
+                        b.extend_from_slice(format!("{size}\r\n").as_bytes());
+                        b.extend_from_slice(&data);
+                        b.extend_from_slice(b"\r\n");
+                    }
+                    b.extend_from_slice(b"0\r\n\r\n");
+                    body = b;
+                }
+                HttpMut::DropBody => body.clear(),
+                other => raw_edits.push(other),
+            }
+        }
+        if !explicit_len {
+            headers.push(("Content-Length".into(), body.len().to_string()));
+        }
+        let mut raw = render_http(&status, &headers, &body);
+        for m in raw_edits {
+            match m {
+                HttpMut::Truncate(i) => raw.truncate(i.index(raw.len() + 1)),
+                HttpMut::Overwrite(i, b) => {
+                    if !raw.is_empty() {
+                        let at = i.index(raw.len());
+                        for (k, x) in b.iter().enumerate() {
+                            if at + k < raw.len() {
+                                raw[at + k] = *x;
+                            }
+                        }
+                    }
+                }
+                HttpMut::Insert(i, b) => {
+                    let at = i.index(raw.len() + 1);
+                    raw.splice(at .. at, b);
+                }
+                _ => {}
+            }
+        }
+        HCase {
+            entry,
+            retries,
+            udp_at_open: vec![],
+            udp: vec![],
+            tcp: vec![TcpScript { data: hex(&raw), close: true, refuse: refuse && raw.len() % 7 == 0 }],
+            source: "http-mutated-valid".into(),
+        }
+    });
+    let random = (entry, prop_oneof![Just(b"HTTP/1.1 200 OK\r\n".to_vec()), Just(b"HTTP/1.1 200 OK\r\nContent-Type: application/json\r\n\r\n".to_vec()), Just(b"HTTP/1.1 200 OK\r\nTransfer-Encoding: chunked\r\n\r\n".to_vec()), Just(Vec::new())], random_datagram(), 0u8 .. 3)
+        .prop_map(|(entry, mut pre, r, retries)| {
+            pre.extend_from_slice(&r);
+            HCase {
+                entry,
+                retries,
+                udp_at_open: vec![],
+                udp: vec![],
+                tcp: vec![TcpScript { data: hex(&pre), close: true, refuse: false }],
+                source: "http-magic-random".into(),
+            }
+        });
+    prop_oneof![5 => mutated, 1 => random].boxed()
+}
+
 /// The case generator. `extreme_bias` re-weights towards extreme values in numeric positions (C13).
 pub fn hcase(extreme_bias: bool) -> BoxedStrategy<HCase> {
     let mutated = entry_strategy()
@@ -712,10 +934,26 @@ pub fn hcase(extreme_bias: bool) -> BoxedStrategy<HCase> {
                 source: "random".into(),
             }
         });
-    prop_oneof![10 => mutated, 4 => magic, 2 => random].boxed()
+    prop_oneof![20 => mutated, 8 => magic, 4 => random, 1 => eco_hcase()].boxed()
 }
 
 pub fn run_hostile(case: &HCase) -> Run<()> {
+    if case.entry.family() == Family::Http {
+        // ureq bypasses the socket seam: the script is served by this thread's real loopback HTTP server
+        let Some(server) = crate::models::eco::thread_server() else {
+            return Run { ended: Ended::Err(gamedig::GDErrorKind::SocketBind), log: Vec::new(), runaway: false, alloc: Default::default() };
+        };
+        let script = case.tcp.first().cloned().unwrap_or(TcpScript { data: String::new(), close: true, refuse: false });
+        server.set_raw(unhex(&script.data), script.refuse);
+        let lo: std::net::IpAddr = std::net::Ipv4Addr::LOCALHOST.into();
+        let (port, retries) = (server.port, case.retries as usize);
+        let mut run = crate::wire::run_plain(|| case.entry.call(&lo, port, retries));
+        // one pseudo event per request the server saw, so that "reached the parser" keeps its meaning
+        for (line, _) in server.requests() {
+            run.log.push(crate::wire::Ev::Recv { conn: 0, size: None, out: crate::wire::RecvOut::Data(line.into_bytes()) });
+        }
+        return run;
+    }
     let ip = doc_ip();
     let server = HostileServer::new(case);
     let retries = case.retries as usize;
@@ -743,7 +981,9 @@ impl Prop for C01 {
     fn rule(&self) -> String {
         "reply scripts x entry points x settings. Entry points: the protocol functions (valve with 8 engine classes and 9 gather-toggle pairs, GameSpy 1/2/3 query and \
          query_vars, Quake 1/2/3, Unreal 2 with toggles, Minecraft auto/java/bedrock/legacy/legacy-specific, FFOW, Savage 2, JC2-MP, Mindustry, The Ship, Battalion 1944, \
-         master-server query_specific and query), the definition-driven dispatch for every table game except eco, and every dedicated game module. Scripts: (1) a valid \
+         master-server query_specific and query), the definition-driven dispatch for every table game, and every dedicated game module (Eco through a real loopback HTTP \
+         server: a valid response with 1-3 mutations of status line, Content-Length / Transfer-Encoding / Content-Encoding / Location headers, chunked framing, JSON scalars replaced \
+         by extreme tokens, truncation / overwrite / insertion of raw bytes; or HTTP magic plus random bytes). Scripts: (1) a valid \
          exchange recorded against the reference servers and then mutated 1-4 times (truncate at any byte, overwrite bytes / u16 / u32 with extreme values in either byte \
          order, delete / insert bytes, drop a NUL terminator, duplicate / drop / swap / splice datagrams, empty and 64 KiB datagrams, challenge storms, pre-queued replies, \
          unclosed / refused TCP), (2) protocol magic followed by random bytes, (3) pure random datagrams and streams; retries 0-2. Oracle: the call returns Ok or Err; a \
@@ -755,7 +995,7 @@ impl Prop for C01 {
     fn assumptions(&self) -> Vec<String> {
         vec![
             "the scripted transport reproduces loopback socket semantics (datagram truncation to the requested size, read_to_end for TCP, silence = immediate timeout)".into(),
-            "eco (HTTP through ureq) bypasses the socket seam and is not part of the scripted enumeration".into(),
+            "eco (HTTP through ureq) bypasses the socket seam: its scripts are raw HTTP responses served by a real loopback HTTP server that closes after answering".into(),
         ]
     }
 
